@@ -340,6 +340,85 @@ func r5hash(c *core.Ctx, rov *core.Fn, cc *ast.CaseClause) {
 		}
 	}
 	c.Check("R5.chunk", "hash/count-reset", cc.Pos(), countReset, "lastReadCount restarts at 0 for every record (before the pair loop)")
+	// … on every path into the loop: a reset that only the first visit of a split
+	// hash takes leaves the count of the previous piece in place for the later
+	// pieces (the final piece then never satisfies lastReadCount == n, remainMember
+	// stays set and the next record is parsed as more pairs)
+	if countReset {
+		resetNodes := map[ast.Node]bool{}
+		for _, st := range e.Stores(g, blk, fieldNamed("lastReadCount")) {
+			if !st.Plain() {
+				continue
+			}
+			if v, ok := core.IntConst(st.G.Info, st.RHS); ok && v == 0 {
+				if len(st.Up) > 0 {
+					if nd := st.Up[len(st.Up)-1].At.Node(); nd != nil {
+						resetNodes[nd] = true
+					}
+				} else if pt, ok := g.Find(st.Stmt); ok {
+					resetNodes[pt.Node()] = true
+				}
+			}
+		}
+		var from cfgq.Point
+		okFrom := false
+		if len(blk.List) > 0 {
+			from, okFrom = g.Find(blk.List[0])
+			if ds, isDecl := blk.List[0].(*ast.DeclStmt); isDecl && !okFrom {
+				if gd, isGen := ds.Decl.(*ast.GenDecl); isGen && len(gd.Specs) > 0 {
+					from, okFrom = g.Find(gd.Specs[0]) // (a declaration is in the graph as its spec)
+				}
+			}
+		}
+		var head ast.Node = loop.Cond
+		if loop.Init != nil {
+			head = loop.Init
+		}
+		hp, okHead := g.Find(head)
+		if okFrom && okHead && len(resetNodes) > 0 {
+			hn := hp.Node()
+			w := g.Path(cfgq.Query{From: from, Target: func(n ast.Node) bool { return n == hn }, Avoid: func(n ast.Node) bool { return resetNodes[n] }})
+			if resetNodes[from.Node()] {
+				w = nil
+			}
+			c.Check("R5.chunk", "hash/count-reset-every-piece", loop.Pos(), w == nil,
+				"lastReadCount restarts at 0 on EVERY path into the pair loop, also when the record continues a split hash: otherwise the final piece never reaches lastReadCount == n, remainMember is not cleared and the bytes that follow are parsed as more pairs", w...)
+		} else {
+			c.Undecidedf("R5.chunk", "hash/count-reset-every-piece", loop.Pos(), "cannot place the reset of lastReadCount and the pair loop in one graph")
+		}
+	}
+	// totMemberCount is the size of the whole hash as read from its header: it is
+	// written only from the length that was read (or cleared), never from the number
+	// of pairs this call is going to read (on a continuation that is the remainder, and
+	// NextBinEntry would take the last piece for an unsplit hash)
+	for _, st := range e.Stores(g, blk, fieldNamed("totMemberCount")) {
+		if !st.Plain() {
+			c.Failf("R5.chunk", "hash/total-from-header", st.Stmt.Pos(), "totMemberCount is updated in place in the hash case; it must hold the length read from the header")
+			continue
+		}
+		if v, ok := core.IntConst(st.G.Info, st.RHS); ok && v == 0 {
+			continue
+		}
+		vals := e.Values(st.Site, st.RHS)
+		good, unknown := len(vals) > 0, ""
+		for _, v := range vals {
+			switch {
+			case v.Unknown != "":
+				unknown = v.Unknown
+			case v.Call != nil && v.Result == 0 && core.CalleeFunc(st.G.Info, v.Call) != nil && core.CalleeFunc(st.G.Info, v.Call).Name() == "ReadLength":
+			default:
+				good = false
+			}
+		}
+		switch {
+		case !good:
+			c.Failf("R5.chunk", "hash/total-from-header", st.Stmt.Pos(), "totMemberCount must receive the member count read from the hash's header and nothing else; here it can also receive another value (the pairs still outstanding on a continuation): the last piece of a split hash is then reported with RealMemberCount 0 and restored as if it were a complete DUMP payload")
+		case unknown != "":
+			c.Undecidedf("R5.chunk", "hash/total-from-header", st.Stmt.Pos(), "cannot resolve what is stored into totMemberCount: %s", unknown)
+		default:
+			c.Okf("R5.chunk", "hash/total-from-header", st.Stmt.Pos(), "totMemberCount receives the length read from the header")
+		}
+	}
 	_ = fmt.Sprint
 }
 
